@@ -510,6 +510,9 @@ impl Suite for DecodeSuite {
                 let mut n = 0u64;
                 let r = for_all_cuts(limit, *max_k as usize, |cuts| {
                     n += 1;
+                    if n % 4096 == 0 {
+                        engine::watchdog::heartbeat();
+                    }
                     run(cuts)
                 });
                 engine::bump("segmentations", n + 2);
